@@ -333,7 +333,20 @@ func TestC11(t *testing.T) {
 			}
 		}
 		bad := func() interface{} {
-			return []interface{}{int32(1), unsupportedValue(rapid.SampledFrom([]string{"chan", "func", "complex128", "uintptr"}).Draw(rt, "bad")), "x"}
+			u := unsupportedValue(rapid.SampledFrom([]string{"chan", "func", "complex128", "uintptr"}).Draw(rt, "bad"))
+			if rapid.IntRange(0, 5).Draw(rt, "badDeep") == 0 {
+				// the refused value sits hundreds of containers deep
+				var v interface{} = u
+				for i := 0; i < 600; i++ {
+					if i%2 == 0 {
+						v = []interface{}{v}
+					} else {
+						v = map[string]interface{}{"k": v}
+					}
+				}
+				return v
+			}
+			return []interface{}{int32(1), u, "x"}
 		}
 		lastLeaver := -1
 		garb := func() []byte {
